@@ -166,6 +166,29 @@ def simple_lua(rng, nbytes, glyphs=False, update60=None):
     return code
 
 
+_SPICE = (b'cfg=defaults{speed=2,name="n"}', b'log"hello"', b'obj:draw{1,2}', b'setmetatable(cls,{__index=base})', b'?"score"',
+          b'-- \x10\x11\x12\x13\x14\x15\x16\x17\x18\x19\x1a\x1b\x1c\x1d\x1e\x1f\x7f glyphs below 0x80',
+          b'glyphs=[[\x10\x18\x1f\x7f\x80\x8e\xff]]', b'-- \x8b\x91\x94\x83\x8e\x97 buttons', b'if (x>1) y=2 else y=3', b'x+=1',
+          b'a,b=b,a', b'local t={[1]=2;3,k="v",}', b'local function helper(...) return ... end', b'str=[==[ ]] ]=] ]==]',
+          b't.a.b:c(1)(2)[3]="x"', b'x=1 // a C-style comment', b'y=x\\2^^3>><1', b'z=@0x5f00+%0x5f02+$0x5f04', b'x=0x1f.8+0b101.1+1e3',
+          b'-- if(_update60)_update=function()', b'n=#t..""', b'f=function(a,...) local b=a end', b'do local q=1 end',
+          b'repeat i+=1 until i>3', b'for k,v in pairs(t) do print(k) end', b'--[[ block\tcomment ]] x=1')
+
+
+def varied_lua(rng, nbytes, update60=None):
+    """simple_lua plus one-line statements in the forms a cart really uses: calls without parentheses (f{...}, f"..", o:m{...}), the `?`
+    shorthand, short-if/while, compound assignment, PICO-8 operators, long strings, `//` comments, and every glyph below 0x80 (codes 16-31,
+    127) and above it in comments and long strings (which every writer copies verbatim)."""
+    base = simple_lua(rng, nbytes, update60=update60)
+    lines = base.split(b'\n')
+    k = max(1, nbytes // 60)
+    for _ in range(k):
+        pos = rng.randrange(len(lines))
+        ind = lines[pos][:len(lines[pos]) - len(lines[pos].lstrip(b' '))] if pos < len(lines) else b''
+        lines.insert(pos, ind + rng.choice(_SPICE))
+    return b'\n'.join(lines)
+
+
 def incompressible(rng, n, prefix=b'--'):
     """n bytes of lexable text that `:c:` cannot shrink: a comment of random non-table bytes."""
     pool = bytes(b for b in range(33, 256) if b not in b'\n\r' and bytes([b]) not in
